@@ -2,7 +2,9 @@
 //! concordium_base and the key-derivation crates of /repo/rust-src.
 mod alloc;
 mod auth;
+mod cc;
 mod envelope;
+mod text;
 mod updkeys;
 mod util;
 mod wire;
@@ -22,6 +24,8 @@ fn main() {
         "envelope-replay" => envelope::main(rest),
         "updkeys-replay" => updkeys::main(rest),
         "wire-replay" => wire::main(rest),
+        "text-replay" => text::main(rest),
+        "cc-replay" => cc::main(rest),
         other => {
             eprintln!("unknown subcommand {}", other);
             2
